@@ -1,1 +1,15 @@
 pub mod c01;
+pub mod c08;
+pub mod c09;
+pub mod c15;
+pub mod part;
+
+/// Restarting a logger that writes directly to timestamp-named files (TimestampsDirect,
+/// TimestampsCustomFormat without current infix) is a listed finding (see known_findings.txt,
+/// property C06). Checks of other properties avoid that region by construction and count it.
+pub fn avoid_direct_ts_restart(cfg: &crate::fscn::FileCfg) -> bool {
+    match cfg.nam() {
+        Some(n) => n.is_ts() && !n.rename_style(),
+        None => false,
+    }
+}
